@@ -39,8 +39,32 @@ def extract_programs(out):
     return progs, by_call
 
 
+def sections(prog):
+    """A program in which the thread never requests the lock while it holds a guard is a sequence of complete critical sections;
+    between two of them the thread holds nothing - the lock state is the one between two calls.  For the lock protocol such a
+    program is therefore the same as its sections called one after the other, and the model checker gets the distinct
+    sections instead of every concatenation the listings' Iterator methods produce ("RrRrRr" for nth(2)).  A program WITH a
+    nested request stays whole."""
+    depth, cur, out, nested = 0, [], [], False
+    for st in prog:
+        if st in ("R", "W"):
+            if depth > 0:
+                nested = True
+            depth += 1
+        else:
+            depth -= 1
+        cur.append(st)
+        if depth == 0:
+            out.append(tuple(cur))
+            cur = []
+    if nested or depth != 0 or cur:
+        return [tuple(prog)]
+    return out or [tuple(prog)]
+
+
 def mc_lock(out, progs, nreaders, maxcalls, tag, timeout=900):
     """Model checks CfbLock instantiated with the extracted programs."""
+    progs = {role: {sec for p in ps for sec in sections(p)} for role, ps in progs.items()}
     wd = core.workdir(f"C14_mc_{tag}")
     pj = os.path.join(wd, "progs.json")
     with open(pj, "w") as f:
